@@ -87,6 +87,9 @@ type retCtx struct {
 	after *Block
 	lhs   []ast.Expr
 	tok   token.Token
+	// a helper spliced as the condition of an if: `return e` branches on e to the statement's then/else blocks
+	then, els *Block
+	neg       bool
 }
 
 // Build constructs the graph of one function body. FuncLits are opaque expressions.
@@ -205,6 +208,23 @@ start:
 		_s = s.Stmt
 		goto start
 	case *ast.ReturnStmt:
+		if b.ret != nil && b.ret.then != nil {
+			// a return of a helper spliced as an if condition: branch on the returned condition
+			if len(s.Results) != 1 {
+				b.add(s)
+				b.jump(b.g.Exit)
+				return
+			}
+			b.add(s.Results[0])
+			c := FromExpr(s.Results[0])
+			if b.ret.neg {
+				c = Not(c)
+			}
+			b.branch(b.ret.then, c)
+			b.branch(b.ret.els, Not(c))
+			b.cur = nil
+			return
+		}
 		if b.ret != nil {
 			// a return of a spliced helper: hand the results to the call statement's left-hand side and go on after it
 			if len(b.ret.lhs) > 0 && len(s.Results) > 0 {
@@ -233,10 +253,12 @@ start:
 		if s.Else != nil {
 			els = b.newBlock("if.else")
 		}
-		b.add(s.Cond)
-		c := FromExpr(s.Cond)
-		b.branch(then, c)
-		b.branch(els, Not(c))
+		if !(b.inline != nil && b.spliceCond(s.Cond, then, els)) {
+			b.add(s.Cond)
+			c := FromExpr(s.Cond)
+			b.branch(then, c)
+			b.branch(els, Not(c))
+		}
 		b.cur = then
 		b.stmt(s.Body)
 		b.jump(done)
@@ -613,6 +635,25 @@ func (g *Graph) Dominators(b *Block) []*Block {
 // Idom returns the immediate dominator (the entry block is its own).
 func (g *Graph) Idom(b *Block) *Block { return b.idom }
 
+// spliceCond splices a helper whose call (possibly negated) is the whole condition of an if statement.
+func (b *builder) spliceCond(cond ast.Expr, then, els *Block) bool {
+	neg := false
+	e := ast.Unparen(cond)
+	for {
+		if u, ok := e.(*ast.UnaryExpr); ok && u.Op == token.NOT {
+			neg = !neg
+			e = ast.Unparen(u.X)
+			continue
+		}
+		break
+	}
+	call, ok := e.(*ast.CallExpr)
+	if !ok {
+		return false
+	}
+	return b.splice(call, nil, token.ASSIGN, false, &retCtx{then: then, els: els, neg: neg})
+}
+
 // tryInline splices the helper called by statement s, if the statement has one of the supported forms and the
 // inline hook accepts the callee.
 func (b *builder) tryInline(s ast.Stmt) bool {
@@ -634,7 +675,14 @@ func (b *builder) tryInline(s ast.Stmt) bool {
 			tail = true
 		}
 	}
-	if call == nil || b.depth >= 3 || call.Ellipsis.IsValid() {
+	if call == nil {
+		return false
+	}
+	return b.splice(call, lhs, tok, tail, nil)
+}
+
+func (b *builder) splice(call *ast.CallExpr, lhs []ast.Expr, tok token.Token, tail bool, condCtx *retCtx) bool {
+	if b.depth >= 3 || call.Ellipsis.IsValid() {
 		return false
 	}
 	dec := b.inline(call, tail)
@@ -764,13 +812,18 @@ func (b *builder) tryInline(s ast.Stmt) bool {
 	b.depth++
 	b.stack = append(b.stack, decl)
 	var after *Block
-	if !tail {
+	if condCtx != nil {
+		b.ret = condCtx
+	} else if !tail {
 		after = b.newBlock("inline.after")
 		b.ret = &retCtx{after: after, lhs: lhs, tok: tok}
 	}
 	b.stmtList(decl.Body.List)
 	if b.cur != nil {
-		if tail {
+		if condCtx != nil {
+			// a boolean helper cannot fall off its end
+			b.jump(b.g.Panic)
+		} else if tail {
 			if b.ret != nil {
 				b.jump(b.ret.after)
 			} else {
@@ -785,5 +838,8 @@ func (b *builder) tryInline(s ast.Stmt) bool {
 	b.depth--
 	b.targets, b.ret, b.parent = savedT, savedR, savedP
 	b.cur = after
+	if condCtx != nil {
+		b.cur = nil
+	}
 	return true
 }
